@@ -131,10 +131,9 @@ def rules(ctx, repo, m, meths):
     # (i) skip-ascii helper: +1 on its true edge only
     csa = meths.get('_check_do_skip_ascii')
     if csa is not None:
-        ok = _advance_summary(csa) == {'True': ['1'], 'False': []}
-        ctx.decide('R04b', ok, m, csa, 'returns True after advancing by 1, False without advancing',
-                   '_check_do_skip_ascii does not advance exactly when it returns True (%s)'
-                   % _advance_summary(csa), construct='_check_do_skip_ascii')
+        why, desc = skip_ascii_summary(csa)
+        ctx.decide('R04b', why is None, m, csa, 'returns True after advancing by 1, False without advancing: ' + desc,
+                   '_check_do_skip_ascii: %s' % why, construct='_check_do_skip_ascii')
     # (ii) _apply_replacement advances by its numchars parameter exactly once
     ar = meths.get('_apply_replacement')
     if ar is None:
@@ -319,19 +318,40 @@ def rules(ctx, repo, m, meths):
                'the main loop is not `while p.pos < len(s)`', construct='main loop header')
 
     # ------------------------------------------------------------ R04c
-    ifs = [i for i in iter_own(ar) if isinstance(i, ast.If)]
-    ok = False
-    for i in ifs:
-        t = unparse(i.test)
-        if t.endswith('.replacement_latex_protection is not None') and \
-                t.startswith(ar.args.args[4].arg if len(ar.args.args) > 4 else 'ruleobj'):
-            asg = [s for s in i.body if isinstance(s, ast.Assign)]
-            used = [s for s in iter_own(ar) if isinstance(s, ast.Assign) and isinstance(s.value, ast.Call)
-                    and asg and unparse(s.value.func) == unparse(asg[0].targets[0])]
-            ok = bool(asg) and 'replacement_latex_protection' in unparse(asg[0].value) and bool(used)
-    ctx.decide('R04c', ok, m, ar, 'rule-level scheme replaces the encoder-wide one when set',
+    rp = ar.args.args[4].arg if len(ar.args.args) > 4 else 'ruleobj'
+    rattr = rp + '.replacement_latex_protection'
+    why = None
+    pn = ar.args.args[1].arg
+    try:
+        ends = [c for c in symex.Walker(want_exits=True, track_attrs=(pn + '.latex', pn + '.pos')).run_block(ar.body)
+                if c.kind in ('end', 'return')]
+    except symex.TooManyPaths as e:
+        ends, why = [], str(e)
+    n_rule = n_enc = 0
+    for cs in ends:
+        lv = cs.env.get(pn + '.latex')
+        app = lv.right if isinstance(lv, ast.BinOp) and isinstance(lv.op, ast.Add) else None
+        app = symex.resolve(app, cs.env) if app is not None else None
+        fn_ = symex.resolve(app.func, cs.env) if isinstance(app, ast.Call) else None
+        facts = symex.facts_of(cs.conds, cs.env)
+        is_none = [p_ for t_, p_ in facts if t_ == rattr + ' is None']
+        if fn_ is None or not is_none:
+            why = 'the replacement appended is %s' % (short(app) if app is not None else 'missing')
+            break
+        if is_none[0]:
+            n_enc += 1
+            if unparse(fn_) != 'self._apply_protection':
+                why = 'without a rule-level scheme the text is protected by %s' % short(fn_)
+        else:
+            n_rule += 1
+            if not (isinstance(fn_, ast.Call) and call_name(fn_) == '_get_replacement_latex_fn'
+                    and fn_.args and unparse(fn_.args[0]) == rattr):
+                why = 'with a rule-level scheme the text is protected by %s' % short(fn_)
+    if why is None and not (n_rule and n_enc):
+        why = 'the two cases (rule-level scheme set / not set) are not distinguished'
+    ctx.decide('R04c', why is None, m, ar, 'rule-level scheme replaces the encoder-wide one when set',
                '_apply_replacement does not let a rule\'s own replacement_latex_protection override '
-               'the encoder-wide scheme', construct='_apply_replacement: protection precedence')
+               'the encoder-wide scheme: %s' % why, construct='_apply_replacement: protection precedence')
 
     # ------------------------------------------------------------ R04d
     for pname in POLICIES:
@@ -458,12 +478,10 @@ def _append_paths(stmts, attr):
     return all(r is None or r == 1 for r in res)
 
 
-def _passthrough_table(t):
-    """True if test t (after substitution: ord(X) comparisons and `X in '<chars>'`) accepts
-    exactly the code points 32..127 and \\n \\r \\t among a set of probe points; False if it
-    accepts another set; None if t is not such a test.  A tiny evaluator over comparison
-    syntax -- the repository's code is not executed."""
-    probes = [0, 8, 9, 10, 11, 12, 13, 14, 31, 32, 33, 65, 126, 127, 128, 160, 255, 0x2028]
+def ord_pred_table(t, probes):
+    """truth values of test t (ord(X) comparisons and `X in '<chars>'`, and/or/not, chained
+    comparisons) on the probe code points, or None if t is not such a test.  A tiny evaluator over
+    comparison syntax -- the repository's code is not executed."""
     UNK = object()
 
     def val(e, o):
@@ -510,8 +528,68 @@ def _passthrough_table(t):
     got = [ev(t, o) for o in probes]
     if any(g is UNK for g in got):
         return None
+    return got
+
+
+def _passthrough_table(t):
+    """True if test t accepts exactly the code points 32..127 and \\n \\r \\t among the probe
+    points; False if it accepts another set; None if t is not such a test."""
+    probes = [0, 8, 9, 10, 11, 12, 13, 14, 31, 32, 33, 65, 126, 127, 128, 160, 255, 0x2028]
+    got = ord_pred_table(t, probes)
+    if got is None:
+        return None
     want = [(32 <= o <= 127) or o in (9, 10, 13) for o in probes]
     return got == want
+
+
+def skip_ascii_summary(f):
+    """(reason or None, description).  For the non_ascii_only helper: on every structural path
+    that returns a true value the position advanced by exactly 1, the character at the old
+    position was appended, and the path's conditions exclude every code point >= 128; paths
+    returning a false value change nothing."""
+    pname = f.args.args[-1].arg
+    PP, PL = pname + '.pos', pname + '.latex'
+    probes = [0, 65, 126, 127, 128, 129, 200, 255, 0x100, 0x2028]
+    try:
+        rcs = [c for c in symex.Walker(want_returns=True, track_attrs=(PP, PL)).run(f) if c.kind == 'return']
+    except symex.TooManyPaths as e:
+        return str(e), ''
+    n_true = 0
+    for cs in rcs:
+        pv, lv = cs.env.get(PP), cs.env.get(PL)
+        truthy = not (isinstance(cs.sub, ast.Constant) and not cs.sub.value)
+        if not truthy:
+            if pv is not None or lv is not None:
+                return 'a path that reports "not skipped" changes the position or the output', ''
+            continue
+        n_true += 1
+        try:
+            d = affine.diff(pv, ast.parse(PP, mode='eval').body, {}) if pv is not None else (0, {})
+        except affine.NotAffine:
+            d = None
+        if d != (1, {}):
+            return 'a skipping path moves the position by %s, not by 1' % (affine.show(d) if d else '?'), ''
+        if not (isinstance(lv, ast.BinOp) and isinstance(lv.op, ast.Add) and unparse(lv.left) == PL and
+                isinstance(lv.right, ast.Subscript) and unparse(lv.right.slice) == PP):
+            return 'a skipping path appends %s, not the character at the position' % (
+                short(lv.right) if isinstance(lv, ast.BinOp) else 'nothing'), ''
+        accept = [True] * len(probes)
+        known = False
+        for t_, pol in cs.conds:
+            tb = ord_pred_table(t_, probes)
+            if tb is None:
+                continue
+            known = True
+            accept = [a and (b == pol) for a, b in zip(accept, tb)]
+        if not known:
+            return 'the skipping path is not guarded by a recognisable code-point test', ''
+        leak = [o for o, a in zip(probes, accept) if a and o >= 128]
+        if leak:
+            return ('the skip test lets code points %s through: non-ASCII characters are copied raw'
+                    % ['U+%04X' % o for o in leak]), ''
+    if not n_true:
+        return 'no path skips a character', ''
+    return None, 'skips exactly one character below 128 per true result (%d path(s))' % len(rcs)
 
 
 def _advance_summary(f):
